@@ -126,6 +126,14 @@ CHECKS["C19"] = (
     "DESIGN.md section 5 C19",
 )
 
+CHECKS["C18"] = (
+    "exploration",
+    "history + from-scratch reference monitor: after every step of add/remove/prefer/derive/underive/call histories the real multimethod is called on every dispatch value and compared with a reference resolution computed from the current tables only; a rebuilt multimethod (other insertion order, cold cache) and several hash seeds check order/cache independence; hierarchy closure invariants are asserted after every derive/underive",
+    "Held on a systematic sample of all length-3 (thorough: length-4) histories over a 17-op alphabet, random histories to length 40, 3 (thorough 6) hash seeds, global and explicit hierarchies, and a concurrent call-while-redefine stress. Exploration.",
+    "Trusted: the reference resolver (unique candidate that precedes all others; default method; ambiguity error); direct vs inherited preference semantics both accepted; a preference contradicting the hierarchy may resolve to either method or raise.",
+    "DESIGN.md section 5 C18",
+)
+
 NOT_BUILT ="check not built yet in this session (design in DESIGN.md section 5); not claimed until its monitor exists and is quiet on the unchanged tree"
 
 
